@@ -141,9 +141,12 @@ class Slice:
 
 def item(src, header_re, what=None):
     """a top level item (struct/enum/macro) with the #[..] attribute lines directly above it (doc attributes dropped: R7)"""
-    m = re.search(header_re, src.code, re.M)
-    if not m:
+    ms = list(re.finditer(header_re, src.code, re.M))
+    if not ms:
         raise AnchorLost('item ' + header_re)
+    if len(ms) > 1:
+        raise AnchorLost('item %s is defined %d times (which one is compiled depends on attributes the extractor does not evaluate)' % (header_re, len(ms)))
+    m = ms[0]
     start = m.start()
     # walk upwards over attribute lines
     a = start
@@ -167,9 +170,12 @@ def item(src, header_re, what=None):
 
 
 def impl_span(src, impl_re):
-    m = re.search(impl_re, src.code, re.M)
-    if not m:
+    ms = list(re.finditer(impl_re, src.code, re.M))
+    if not ms:
         raise AnchorLost('impl ' + impl_re)
+    if len(ms) > 1:
+        raise AnchorLost('%d blocks match `%s`: the extractor reads one of them, rustc may compile another (cfg) or merge them (a second inherent impl can shadow a trait method)' % (len(ms), impl_re))
+    m = ms[0]
     ob = src.code.index('{', m.end() - 1)
     end = match_brace(src.code, ob)
     return ob, end
@@ -177,9 +183,12 @@ def impl_span(src, impl_re):
 
 def fn_in(src, lo, hi, fn_name, what):
     body = src.code[lo:hi]
-    fm = re.search(r'^[ \t]*(pub(\(crate\))? )?fn ' + re.escape(fn_name) + r'\b', body, re.M)
-    if not fm:
+    fms = list(re.finditer(r'^[ \t]*(pub(\(crate\))? )?fn ' + re.escape(fn_name) + r'\b', body, re.M))
+    if not fms:
         raise AnchorLost('fn ' + what)
+    if len(fms) > 1:
+        raise AnchorLost('fn %s is defined %d times in that block' % (what, len(fms)))
+    fm = fms[0]
     fob = body.index('{', fm.end())
     fend = match_brace(body, fob)
     # skip leading indentation
@@ -193,9 +202,12 @@ def fn_in_impl(src, impl_re, fn_name, what=None):
 
 
 def top_fn(src, fn_name, what=None):
-    m = re.search(r'^(pub(\(crate\))? )?fn ' + re.escape(fn_name) + r'\b', src.code, re.M)
-    if not m:
+    ms = list(re.finditer(r'^(pub(\(crate\))? )?fn ' + re.escape(fn_name) + r'\b', src.code, re.M))
+    if not ms:
         raise AnchorLost('fn ' + fn_name)
+    if len(ms) > 1:
+        raise AnchorLost('fn %s is defined %d times at top level' % (fn_name, len(ms)))
+    m = ms[0]
     fob = src.code.index('{', m.end())
     fend = match_brace(src.code, fob)
     return Slice(src, m.start(), fend, what or fn_name)
@@ -268,12 +280,55 @@ def r1_split_or_guard(sl):
     return sl
 
 
+def r13_asserts(sl):
+    """R13: `debug_assert!(c, msg..)` / `assert!(c, msg..)` -> `assert!(c)`.  Verus compiles without debug assertions, while the
+    crate's tests and C06's statement run with them: the condition becomes a proof obligation either way; the message (a
+    `format_args!`, outside Verus's reach) is dropped"""
+    t = sl.text
+    out = []
+    i = 0
+    n = 0
+    for m in re.finditer(r'\b(debug_assert|assert)!\s*\(', t):
+        if m.start() < i:
+            continue
+        a = m.end() - 1
+        depth = 0
+        j = a
+        comma = None
+        while j < len(t):
+            c = t[j]
+            if c == '"':
+                j += 1
+                while t[j] != '"':
+                    j += 2 if t[j] == '\\' else 1
+            elif c in '([{':
+                depth += 1
+            elif c in ')]}':
+                depth -= 1
+                if depth == 0:
+                    break
+            elif c == ',' and depth == 1 and comma is None:
+                comma = j
+            j += 1
+        cond = t[a + 1:(comma if comma is not None else j)]
+        out.append(t[i:m.start()] + 'assert!(' + cond.strip() + ')')
+        i = j + 1
+        if m.group(1) == 'debug_assert' or comma is not None:
+            n += 1
+    out.append(t[i:])
+    if n:
+        sl.text = ''.join(out)
+        sl.rewrites.append('R13 debug_assert!/assert! with message -> assert!(cond) (%d)' % n)
+    return sl
+
+
 def inject(sl, ret=None, contract='', entry='', loops=(), closures=(), after=(), loop_entry=(), loop_end=(), before=(), rename=None, make_pub=False, loop_over=()):
     """Splice annotations into a function slice; executable tokens are untouched.
     ret: name for the return value; contract: requires/ensures/decreases text; entry: ghost text at body start;
     loops: (ordinal, iterator name, invariant text); closures: (exact closure text, annotated replacement);
     after / before: (snippet, ghost text); loop_entry / loop_end: (ordinal, ghost text).
     Returns (text, lost) where lost lists hint anchors that were not found (the hint is then left out)."""
+    r13_asserts(sl)
     fn_text = sl.text
     lost = []
     ob = fn_text.index('{')
